@@ -4,7 +4,8 @@
 \* two entries, uniform} from {const 0/2, child+2, child*3, child+arg, arg*(1+child)}, plus the "no operation" case
 \* that carries the Complexity(type, field) table of EVERY GraphQL field of every object type under
 \* {each entry alone x (const 2, child+2, child+arg), all entries const 7, none}.
-\* Measured: 39 initial states (38 operations + the table case), 2,786 inputs (2,730 operation cases + 56 table
+\* Measured (round 4, schema with Box/Shelf/Archive: 32 entries, 38 object fields): 39 initial states, 2,802 inputs (2,730 operation cases + 72 table assignments with 96 rows each), 5,643 distinct states.
+\* Before round 4: 39 initial states (38 operations + the table case), 2,786 inputs (2,730 operation cases + 56 table
 \* assignments with 78 rows each), 5,611 distinct states, depth 3; 1 worker ~12-27 s.
 \* -coverage 1: Init 39, ChooseCosts 2786, Compute 2786 (no action with count 0).
 \* Teeth (by hand): CustomOf answering only for the field declared first of a group -> TBinding and TAlias violated.
